@@ -359,6 +359,13 @@ func c13Sums(r *rng, hashName, file string, d []byte, nRandom int) []*c13Check {
 		add(fmt.Sprintf("extra:%d", n), append(append([]byte(nil), d...), r.bytes(n)...), false)
 		add(fmt.Sprintf("extrazero:%d", n), append(append([]byte(nil), d...), make([]byte, n)...), false)
 	}
+	// what a checksum FILE leaves around the digest: line terminators, blanks; and the digest in its text form
+	for _, w := range []string{"\n", "\r\n", "\n\n\n", "\r", " ", "\t", "\x00"} {
+		add(fmt.Sprintf("extraws:%x", w), append(append([]byte(nil), d...), w...), false)
+		add(fmt.Sprintf("leadws:%x", w), append([]byte(w), d...), false)
+	}
+	add("hextext", []byte(fmt.Sprintf("%x", d)), false)
+	add("hextext-nl", []byte(fmt.Sprintf("%x\n", d)), false)
 	add("empty", []byte{}, false)
 	add("nil", nil, false)
 	add("nilhash", d, true)
@@ -757,6 +764,9 @@ func c13GenStarts(r *rng) []*c13Start {
 		mk("prefix:1", d[:1], false)
 		mk("extra:1", append(append([]byte(nil), d...), byte(q.next())), false)
 		mk("extrazero:1", append(append([]byte(nil), d...), 0), false)
+		mk("extraws:0a", append(append([]byte(nil), d...), '\n'), false)
+		mk("extraws:0d0a", append(append([]byte(nil), d...), '\r', '\n'), false)
+		mk("leadws:20", append([]byte(" "), d...), false)
 		mk("empty", []byte{}, false)
 		mk("nilhash", d, true)
 		mk("otherfile", c13FH(hn, other, false), false)
